@@ -15,7 +15,7 @@ import (
 
 func init() { Registry["C15"] = runC15 }
 
-const explanationC15 = "Decides structural necessary conditions of C15 on the source of goa's http package: (R15.1) the media-type→codec decision tables of ResponseEncoder (designed content type branch and the Accept negotiation closure), ResponseDecoder and RequestDecoder are each compared row by row with one reference function (json/xml/gob/text families incl. +json/+xml/+gob/+html/+txt suffixes; response default json, request default unsupported), which also makes encoder and decoder agree with each other; (R15.2) every return of ResponseEncoder is preceded by SetContentType with the media type that belongs to the returned encoder (same negotiate call / parsed designed type); (R15.3) no path returns a nil encoder; (R15.4) the unsupported decoder yields the error named by the constant that the status table maps to 415; (R15.5) text codec type tables; (R15.6) SetContentType's composition table against its doc comment; RequestEncoder announces JSON when it encodes JSON; (R15.7) the XML writer and reader of an error response agree field by field (shared R18.4); shared R16.5 (the 404 body is announced with the negotiated type); R15.5 also requires that a text body that cannot be read in full is an error. shared R05.3 (the default error encoder negotiates its encoder, which announces the type, before it writes the status). NOT decided: byte-level round trips through encoding/json|xml|gob, Accept-header grammar (q-values, lists, wildcards are compared as whole strings by the code), behaviour of mime.ParseMediaType."
+const explanationC15 = "Decides structural necessary conditions of C15 on the source of goa's http package: (R15.1) the media-type→codec decision tables of ResponseEncoder (designed content type branch and the Accept negotiation closure), ResponseDecoder and RequestDecoder are each compared row by row with one reference function (json/xml/gob/text families incl. +json/+xml/+gob/+html/+txt suffixes; response default json, request default unsupported), which also makes encoder and decoder agree with each other; (R15.2) every return of ResponseEncoder is preceded by SetContentType with the media type that belongs to the returned encoder (same negotiate call / parsed designed type); (R15.3) no path returns a nil encoder; (R15.4) the unsupported decoder yields the error named by the constant that the status table maps to 415; (R15.5) text codec type tables; (R15.6) SetContentType's composition table against its doc comment; RequestEncoder announces JSON when it encodes JSON; (R15.7) the XML writer and reader of an error response agree field by field (shared R18.4); shared R16.5 (the 404 body is announced with the negotiated type); R15.5 also requires that a text body that cannot be read in full is an error. shared R05.3 (the default error encoder negotiates its encoder, which announces the type, before it writes the status). (R15.8) the debugging wrappers put back as the Body exactly what io.ReadAll read from the Body itself (no capped or filtered view). NOT decided: byte-level round trips through encoding/json|xml|gob, Accept-header grammar (q-values, lists, wildcards are compared as whole strings by the code), behaviour of mime.ParseMediaType."
 
 var (
 	reMTEq     = regexp.MustCompile(`^\((.+) == "([a-z]+/[a-z]+)"\)$`)
@@ -138,6 +138,7 @@ func runC15(c *an.Ctx) string {
 	const r1 = "R15.1"
 	mediaLHSConsistency(c, r1, c.Func("http", "RequestDecoder"))
 	r15ResponseDecoder(c)
+	r158BodyTee(c, "R15.8")
 
 	// RequestDecoder
 	decision(c, r1, c.MustFunc(r1, "http", "RequestDecoder"), an.PathOpts{},
@@ -643,4 +644,79 @@ func r15RequestEncoder(c *an.Ctx) {
 	} else {
 		c.Okf(rule, f.Name, "request encoder is JSON and announces application/json exactly when no Content-Type was set")
 	}
+}
+
+// r158BodyTee (R15.8): the debugging wrappers (client debugDoer, server Debug middleware) read a request or response
+// body to print it and put the bytes back for the real consumer. They are transparent only if what they put back is
+// everything that was there: each io.ReadAll whose result is re-installed as a Body reads the Body itself, not a
+// limited, filtered or otherwise wrapped view of it (the decoder would be handed a truncated document under the
+// Content-Type and Content-Length of the whole one).
+func r158BodyTee(c *an.Ctx, rule string) {
+	sites := 0
+	for _, dir := range []string{"http", "http/middleware", "middleware", "grpc", "grpc/middleware"} {
+		for _, f := range c.AllFuncs(dir) {
+			info := f.Pkg.TypesInfo
+			reinstalled := map[types.Object]bool{}
+			ast.Inspect(f.Decl.Body, func(n ast.Node) bool {
+				as, ok := n.(*ast.AssignStmt)
+				if !ok || len(as.Lhs) != 1 || len(as.Rhs) != 1 {
+					return true
+				}
+				se, ok := an.Unparen(as.Lhs[0]).(*ast.SelectorExpr)
+				if !ok || se.Sel.Name != "Body" {
+					return true
+				}
+				// NopCloser(bytes.NewBuffer(b)) / NopCloser(bytes.NewReader(b))
+				outer, ok := an.Unparen(as.Rhs[0]).(*ast.CallExpr)
+				if !ok || len(outer.Args) != 1 || !strings.HasSuffix(an.CalleeName(info, outer), ".NopCloser") {
+					return true
+				}
+				inner, ok := an.Unparen(outer.Args[0]).(*ast.CallExpr)
+				if !ok || len(inner.Args) != 1 {
+					return true
+				}
+				switch an.CalleeName(info, inner) {
+				case "bytes.NewBuffer", "bytes.NewReader":
+				default:
+					return true
+				}
+				if id, ok := an.Unparen(inner.Args[0]).(*ast.Ident); ok {
+					if o := an.ObjOf(info, id); o != nil {
+						reinstalled[o] = true
+					}
+				}
+				return true
+			})
+			if len(reinstalled) == 0 {
+				continue
+			}
+			ast.Inspect(f.Decl.Body, func(n ast.Node) bool {
+				as, ok := n.(*ast.AssignStmt)
+				if !ok || len(as.Rhs) != 1 || len(as.Lhs) == 0 {
+					return true
+				}
+				call, ok := an.Unparen(as.Rhs[0]).(*ast.CallExpr)
+				if !ok || len(call.Args) != 1 {
+					return true
+				}
+				if cn := an.CalleeName(info, call); cn != "io.ReadAll" && cn != "io/ioutil.ReadAll" {
+					return true
+				}
+				id, ok := as.Lhs[0].(*ast.Ident)
+				if !ok || !reinstalled[an.ObjOf(info, id)] {
+					return true
+				}
+				sites++
+				src := an.Unparen(an.ResolveLocalOnce(info, f.Decl.Body, call.Args[0]))
+				construct := fmt.Sprintf("%s#tee(%s)", c.RefName(f), id.Name)
+				if se, ok := src.(*ast.SelectorExpr); ok && se.Sel.Name == "Body" {
+					c.Okf(rule, construct, "%s is read whole from %s and put back", id.Name, types.ExprString(src))
+				} else {
+					c.Failf(rule, construct, call.Pos(), "the bytes put back as the Body for the real consumer are read from `%s`, not from the Body itself: whatever that view leaves out (a size cap, a filter) is lost to the decoder while the headers still announce the whole document", types.ExprString(call.Args[0]))
+				}
+				return true
+			})
+		}
+	}
+	c.Floor(rule, sites, 5, "bodies read and re-installed by the debugging wrappers")
 }
